@@ -27,6 +27,15 @@ FRESH_CALLS = {"copy.deepcopy", "deepcopy", "bytes", "bytearray", "int", "len", 
                "abs", "divmod", "isinstance", "hash", "id", "repr"}
 SHALLOW_METHODS = {"copy", "items", "values", "keys", "__iter__"}
 ELEMENT_METHODS = {"get", "pop", "popitem", "setdefault", "__getitem__"}
+# named exceptions (one line of reason each): name -> constructor memo tables; the stored values are classes / partials
+# chosen by the *name* alone, so no call can observe an earlier one through them
+REGISTRY_MEMO = {
+    "toolkit/prf/__init__.py::get_prf_implementation": "memo name -> PRF class",
+    "toolkit/prp/__init__.py::get_prp_implementation": "memo name -> PRP class",
+    "toolkit/symmetric_encryption/__init__.py::get_symmetric_encryption_implementation": "memo name -> cipher class",
+    "toolkit/hash.py::get_hash_implementation": "memo name -> hash wrapper constructor",
+    "schemes/__init__.py::load_sse_module": "memo scheme name -> module loader",
+}
 SCHEME_METHODS = ["__init__", "_Gen", "_Enc", "_Trap", "_Search", "KeyGen", "EDBSetup", "TokenGen", "Search"]
 
 
@@ -279,6 +288,9 @@ def check(repo):
                 # report at the outermost function whose *own parameter or global* is hit when that function is an entry point
                 entry = fi.cls is not None and (fi.cls is s.cls or fi.cls is s.config_cls)
                 if root[0] == "global":
+                    if fi.key in REGISTRY_MEMO:
+                        r1.note("%s: %s (accepted: %s)" % (fi.key, what, REGISTRY_MEMO[fi.key]))
+                        continue
                     bad += 1
                     r1.fail_fn(fi, node, "mutation of module global %s" % root[2], "%s: %s" % (fi.qual, what))
                 elif entry:
